@@ -12,12 +12,12 @@ CORE = "MC_core.tla"
 
 # model-checking configurations: name -> (quick MaxDepth, thorough MaxDepth)
 MC_DEPTH = {
-    "MC_relay": (5, 7), "MC_relayB": (8, 10), "MC_time": (8, 10), "MC_iso": (5, 6), "MC_v6": (6, 7), "MC_mtu": (4, 5), "MC_resv": (5, 6), "MC_stream": (6, 7), "MC_stream2": (6, 7), "MC_veto": (8, 10), "MC_quota": (6, 7),
+    "MC_relay": (5, 7), "MC_relayB": (8, 10), "MC_time": (8, 10), "MC_iso": (5, 6), "MC_v6": (6, 7), "MC_mtu": (4, 5), "MC_resv": (5, 6), "MC_stream": (6, 7), "MC_stream2": (6, 7), "MC_veto": (8, 10), "MC_longlife": (6, 7), "MC_quota": (6, 7),
 }
 # generation slices: name -> (quick MaxDepth, thorough MaxDepth)
 GEN_DEPTH = {
     "GEN_relayA": (6, 7), "GEN_relayB": (6, 7), "GEN_relayD": (4, 5), "GEN_time": (7, 8), "GEN_users": (5, 6),
-    "GEN_iso": (4, 5), "GEN_v6": (4, 5), "GEN_v6strict": (5, 6), "GEN_mtu": (4, 4), "GEN_mtu1200": (4, 4), "GEN_resv": (4, 5), "GEN_recycle": (7, 8), "GEN_chan3": (8, 9), "GEN_stream": (5, 6), "GEN_stream2": (5, 6), "GEN_veto": (6, 7), "GEN_quota": (5, 6),
+    "GEN_iso": (4, 5), "GEN_v6": (4, 5), "GEN_v6strict": (5, 6), "GEN_mtu": (4, 4), "GEN_mtu1200": (4, 4), "GEN_resv": (4, 5), "GEN_recycle": (7, 8), "GEN_chan3": (8, 9), "GEN_stream": (5, 6), "GEN_stream2": (5, 6), "GEN_veto": (6, 7), "GEN_longlife": (4, 5), "GEN_quota": (5, 6),
 }
 
 
@@ -334,7 +334,7 @@ PROPS = {
                                            "inbound MTU 1600 and 1200, 25 boundary lengths plus random ones up to 9000, single datagrams and bursts of 3-8 that arrive before the application reads; "
                                            "every arrival must be byte-identical to something sent in that direction for that endpoint, once, truthfully attributed; within the limits it must have arrived when the execution settles"]),
     "C06": dict(title="allocation lifetime, refresh and deletion are exact", level="model_checking",
-                run=with_ledger_rt(with_server_trace(core_run(["MC_time", "MC_life", "MC_stream", "MC_reaper"], ["GEN_time", "GEN_users", "GEN_relayA", "GEN_lifeA", "GEN_stream", "GEN_reaper", "GEN_reaperS"]))),
+                run=with_ledger_rt(with_server_trace(core_run(["MC_time", "MC_life", "MC_stream", "MC_reaper", "MC_longlife"], ["GEN_time", "GEN_users", "GEN_relayA", "GEN_lifeA", "GEN_stream", "GEN_reaper", "GEN_reaperS", "GEN_longlife"]))),
                 assumptions=BASE_ASSUME),
     "C07": dict(title="permissions and channels live one full timeout past their last refresh", level="model_checking",
                 run=with_server_trace(core_run(["MC_relay", "MC_relayB", "MC_steps", "MC_veto"], ["GEN_relayA", "GEN_relayB", "GEN_steps", "GEN_chan3", "GEN_veto"])),
